@@ -238,10 +238,22 @@ def _check_pair_predicate_syntactic(ctx, rid):
     bas = repo.mod(BASICS)
     pf = bas.func("Parser.forward")
     defs = _defs(pf)
-    pairs_def = defs.get("pairs", [])
+    # the pair mask by role, not by name: the local whose defining product contains the comparison against the outer cutoff (directly or through the local bound to it)
+    cut_names = {nm for nm, vs in defs.items() for v in vs if isinstance(v, ast.Compare) and "outercutoff" in norm(v)}
+    role = []
+    for st in ast.walk(pf):
+        if isinstance(st, ast.Assign) and len(st.targets) == 1 and isinstance(st.targets[0], ast.Name):
+            fs0 = _flatten_product(st.value)
+            if len(fs0) >= 2 and any((isinstance(f_, ast.Name) and f_.id in cut_names) or (isinstance(f_, ast.Compare) and "outercutoff" in norm(f_)) for f_ in fs0):
+                role.append(st.targets[0].id)
+    PN = role[0] if len(set(role)) == 1 else "pairs"
+    pairs_def = defs.get(PN, [])
     if not pairs_def:
-        raise AnalysisError("Parser.forward: `pairs` is not defined")
-    psts = sorted([st for st in ast.walk(pf) if isinstance(st, ast.Assign) and norm(st.targets[0]) == "pairs"], key=lambda s_: s_.lineno)
+        raise AnalysisError("Parser.forward: the pair mask (product of ordering, padding and cutoff factors) is not defined in a recognisable form")
+    psts = sorted([st for st in ast.walk(pf) if isinstance(st, ast.Assign) and norm(st.targets[0]) == PN], key=lambda s_: s_.lineno)
+    if any(isinstance(st_.value, ast.Call) and not _flatten_product(st_.value)[1:] and (call_name(st_.value) or "")[:1].isupper() for st_ in psts) or \
+            any(isinstance(st_.value, ast.Call) and isinstance(st_.value.func, ast.Name) and st_.value.func.id.lstrip("_")[:1].isupper() for st_ in psts):
+        raise AnalysisError(f"Parser.forward: `{PN}` is also bound to a record object; pair predicate decided on interpreted batches")
     pst = psts[0]
     # `pairs` may be refined by later statements (pairs = pairs * extra): compose the factors in source order and remember under
     # which conditions each refinement applies -- a cutoff that is only applied under a condition is not "exactly the pairs beyond it"
@@ -253,13 +265,13 @@ def _check_pair_predicate_syntactic(ctx, rid):
         fs = _flatten_product(st_.value)
         extra_ctrl = [(norm(a), p_) for a, p_, _ in _controlling(bas, st_, stop=pf) if norm(a) not in base_ctrl]
         for f_ in fs:
-            if isinstance(f_, ast.Name) and f_.id == "pairs" and st_ is not psts[0]:
+            if isinstance(f_, ast.Name) and f_.id == PN and st_ is not psts[0]:
                 continue
             factors.append(f_)
             if extra_ctrl:
                 conditional[id(f_)] = extra_ctrl
     defs = dict(defs)
-    defs["pairs"] = []
+    defs[PN] = []
 
     def coord_dep(e):
         def pred(n):
@@ -292,7 +304,10 @@ def _check_pair_predicate_syntactic(ctx, rid):
             kinds.setdefault("cutoff", []).append((f, fx))
         elif _mentions(f, defs, lambda n: isinstance(n, ast.Name) and n.id == "nonblank"):
             kinds.setdefault("nonblank", []).append((f, fx))
-        elif isinstance(fx, ast.Compare) and {norm(fx.left), norm(fx.comparators[0])} == {"pair_first", "pair_second"}:
+        elif isinstance(fx, ast.Compare) and len(fx.ops) == 1 and ({norm(fx.left), norm(fx.comparators[0])} == {"pair_first", "pair_second"} or (
+                # by role: both sides are the atom-index grid, expanded along different axes
+                all(_mentions(sd, defs, lambda n: isinstance(n, ast.Name) and n.id == "atom_index") for sd in (fx.left, fx.comparators[0]))
+                and not any(_mentions(sd, defs, lambda n: isinstance(n, ast.Name) and n.id == "nonblank") for sd in (fx.left, fx.comparators[0])))):
             kinds.setdefault("order", []).append((f, fx))
         else:
             kinds.setdefault("other", []).append((f, fx))
